@@ -119,9 +119,9 @@ def expectedLoopReads : List String :=
 /-- the `curr_target` / `loss_dict_list` / yield statements of `reconstruct_volumes`, in source order -/
 def expectedTargetFacts : List String :=
   ["init[curr_target=None;loss_dict_list=[]]",
-   "TGT=_process_output(data['target'], SCALE, resolution=RES, complex_axis=self._complex_dim)",
+   "TGT=_process_output(data['target'], scaling_factors=SCALE, resolution=RES, complex_axis=self._complex_dim)",
    "alloc loss_dict_list.append(ITER.data_dict)",
-   "alloc if add_target: curr_target=curr_volume.clone()",
+   "alloc if add_target: curr_target=a fresh zero buffer like curr_volume (distinct tensor)",
    "if add_target: write curr_target[same window as curr_volume]=TGT.cpu()",
    "yield when add_target: (curr_volume, curr_target, reduce_list_of_dicts(loss_dict_list), FILENAME)",
    "yield when not add_target: (curr_volume, reduce_list_of_dicts(loss_dict_list), FILENAME)"]
